@@ -284,3 +284,33 @@ func FarPointer(r *rand.Rand) []byte {
 	}
 	return out
 }
+
+// ManyPointers builds a list of 2..40 names most of which end in a single-level compression pointer to a label of
+// one of the first (uncompressed) names: long lists of sub-domains of a few parents, as real search lists are.
+func ManyPointers(r *rand.Rand) []byte {
+	var out []byte
+	var starts []int
+	for k := 1 + r.IntN(3); k > 0; k-- {
+		for i := 1 + r.IntN(3); i > 0; i-- {
+			l := 1 + r.IntN(8)
+			starts = append(starts, len(out))
+			out = append(out, byte(l))
+			for j := 0; j < l; j++ {
+				out = append(out, byte('a'+r.IntN(26)))
+			}
+		}
+		out = append(out, 0)
+	}
+	for k := 1 + r.IntN(40); k > 0; k-- {
+		if r.IntN(6) != 0 { // a label, then the pointer
+			l := 1 + r.IntN(6)
+			out = append(out, byte(l))
+			for j := 0; j < l; j++ {
+				out = append(out, byte('s'+r.IntN(4)))
+			}
+		}
+		t := starts[r.IntN(len(starts))]
+		out = append(out, 0xC0|byte(t>>8), byte(t))
+	}
+	return out
+}
